@@ -108,6 +108,16 @@ func (w *world) hostile(a action) {
 			tab.At(1).SetSenderPromise(39)
 		}
 		p.SetContent(s.ToPtr())
+	case "release-inflight-result-export":
+		// Release of the export that the Return currently held inside transport.send introduces (answer a.Q; the peer gave up
+		// its result capabilities with an early Finish(releaseResultCaps), so it holds no reference to release)
+		exp, ok := w.exportOf(a.Q)
+		if !ok {
+			exp = 1
+		}
+		r, _ := rm.NewRelease()
+		r.SetId(uint32(exp))
+		r.SetReferenceCount(1)
 	case "bootstrap-reused-question":
 		b, _ := rm.NewBootstrap()
 		b.SetQuestionId(uint32(a.Q))
@@ -227,4 +237,12 @@ func (w *world) hostile(a action) {
 	rec["ev"], rec["dir"] = "msg", "recv"
 	w.log(rec)
 	w.toConn <- msg
+	// a message of the Conn that is being held inside transport.send is let go once the hostile message is in
+	w.mu.Lock()
+	held := len(w.holds) > 0
+	w.mu.Unlock()
+	if held {
+		w.settle()
+		w.step(action{A: "release-send"}, new(bool))
+	}
 }
